@@ -13,7 +13,7 @@ Open Scope nat_scope.
 
 Inductive op :=
 (* packet loop (one goroutine); DHCPv4Update is called by the DHCP handler's ProcessPacket *)
-| ParseFast | ParseSlow | Notify | NotifyDhcp | DHCPv4Update
+| ParseFast | ParseSlow | Notify | NotifyDhcp | DHCPv4Update | ReadFrom
 (* background of the session *)
 | Purge | PurgeProbe | MinuteLoop | NicMonitor
 (* query / control API of the session *)
@@ -30,7 +30,7 @@ Inductive op :=
 | DnsProcessDNS | DnsProcessMDNS | DnsFind | DnsClose.
 
 Definition all_ops : list op :=
-  [ParseFast; ParseSlow; Notify; NotifyDhcp; DHCPv4Update; Purge; PurgeProbe; MinuteLoop; NicMonitor;
+  [ParseFast; ParseSlow; Notify; NotifyDhcp; DHCPv4Update; ReadFrom; Purge; PurgeProbe; MinuteLoop; NicMonitor;
    FindIP; GetHosts; IPAddrs; FindByMAC; FindMACEntry; PrintTable;
    Capture; Release; IsCaptured; DHCPv4IPOffer; SetDHCPv4IPOffer; SessClose;
    ArpProcess; ArpStartHunt; ArpStopHunt; ArpIsHunting; ArpPrintTable; ArpSpoofLoop; ArpClose;
@@ -40,6 +40,7 @@ Definition all_ops : list op :=
 
 Definition op_name (o : op) : string :=
   match o with
+  | ReadFrom => "ReadFrom"
   | ParseFast => "Parse.fast" | ParseSlow => "Parse.slow" | Notify => "Notify" | NotifyDhcp => "Notify.dhcp"
   | Purge => "purge" | PurgeProbe => "purge.probe" | MinuteLoop => "minuteLoop" | NicMonitor => "nicMonitor"
   | FindIP => "FindIP" | GetHosts => "GetHosts" | IPAddrs => "IPAddrs" | FindByMAC => "FindByMAC"
@@ -128,8 +129,10 @@ Definition fFindIP0 : list T := [TAcq LSess MR; TRd FHostTable; TRel LSess].
 Definition fDHCPv4IPOffer0 : list T :=
   [TAcq LSess MR; TRd FMACTable; TAcq LRow MR; TRd FMacIP4Offer; TRel LRow; TRel LSess].
 
-(* notification.go:50 sendNotification: check-then-act on len/cap, then send *)
-Definition sendNotification : list T := [TLenCap CNotify; TSend CNotify].
+(* notification.go sendNotification (repaired): under the session read lock, skipped once `closed` is set,
+   non-blocking send (select with default) — was: len/cap test then a blocking send, no ordering with Close *)
+Definition sendNotification : list T :=
+  [TAcq LSess MR; TRd FSessClosed; TSendIfOpen FSessClosed CNotify; TRel LSess].
 
 (* notification.go:41 toNotification(host) *)
 Definition toNotification : list T :=
@@ -224,13 +227,18 @@ Definition template (o : op) : tmpl op :=
      onlineTransition under the row lock *)
   | DHCPv4Update => simple fDHCPv4Update
   (* session.go:234-243 Close: unsynchronised flag, close(closeChan), close(C) *)
+  (* (repaired) the flag is tested and set under the session write lock: one Close closes the channels *)
   | SessClose =>
-      simple [TRd FSessClosed; TExitIfFlag FSessClosed; TWr FSessClosed; TSetFlag FSessClosed;
+      simple [TAcq LSess MW; TRd FSessClosed; TOnce FSessClosed; TWr FSessClosed; TRel LSess;
               TCloseCh CSessClose; TCloseCh CNotify]
+  (* session.go ReadFrom: after a connection error `closed` is read under the session read lock (repaired) *)
+  | ReadFrom => simple [TAcq LSess MR; TRd FSessClosed; TRel LSess]
 
   (* ---- handlers/arp_spoofer (arp.go, spoof.go at the current head) ---- *)
   (* arp.go ProcessPacket: `closed` read with no lock; hunt list under arpMutex; DHCPv4IPOffer for probes *)
-  | ArpProcess => simple ([TRd FArpClosed; TAcq LArp MW; TRd FArpHuntList; TRel LArp] ++ fDHCPv4IPOffer)
+  | ArpProcess =>
+      simple ([TAcq LArp MW; TRd FArpClosed; TRel LArp;      (* isClosed (repaired: was read with no lock) *)
+               TAcq LArp MW; TRd FArpHuntList; TRel LArp] ++ fDHCPv4IPOffer)
   (* spoof.go:34 StartHunt: map insert and `go spoofLoop` under arpMutex *)
   | ArpStartHunt => simple [TAcq LArp MW; TRd FArpHuntList; TWr FArpHuntList; TSpawn ArpSpoofLoop; TRel LArp]
   (* spoof.go:57 StopHunt *)
@@ -242,15 +250,16 @@ Definition template (o : op) : tmpl op :=
   | ArpPrintTable => simple [TAcq LArp MW; TRd FArpHuntList; TRel LArp]
   (* spoof.go:78 spoofLoop, one iteration: membership under arpMutex, `closed` read with no lock,
      exit when not hunted or closed; the select wakes on closeChan or the ticker *)
-  | ArpSpoofLoop => simple [TAcq LArp MW; TRd FArpHuntList; TRel LArp; TRd FArpClosed; TExitIfFlag FArpClosed; TAgain]
+  | ArpSpoofLoop => simple [TAcq LArp MW; TRd FArpHuntList; TRd FArpClosed; TRel LArp; TExitIfFlag FArpClosed; TAgain]
   (* arp.go:63 Close *)
-  | ArpClose => simple (closeWith FArpClosed [] CArpClose)
+  | ArpClose => simple [TAcq LArp MW; TRd FArpClosed; TOnce FArpClosed; TWr FArpClosed; TCloseCh CArpClose; TRel LArp]
 
   (* ---- handlers/icmp_spoofer Handler6 (icmp6.go, icmp6spoof.go at the current head) ---- *)
   (* icmp6.go RA branch: huntList.Len() and `closed` with no lock, closeChan swapped and the old one
      closed with no lock; package-global `repeat`; router table under the handler lock *)
   | I6ProcessRA =>
-      simple [TRd FI6HuntList; TRd FI6Closed; TRd FI6CloseChan; TWr FI6CloseChan; TCloseCh CI6Close;
+      simple [TAcq LIcmp6 MW; TRd FI6HuntList; TRd FI6Closed; TRd FI6CloseChan; TWr FI6CloseChan; TWake CI6Close;
+              TRel LIcmp6;   (* (repaired) the wake-up swap runs under the handler lock and only while not closed *)
               TRd FI6Repeat; TWr FI6Repeat;
               TAcq LIcmp6 MW; TRd FI6Routers; TWr FI6Routers; TWr FI6Router; TRel LIcmp6;
               (* icmp6.go: the Debug log line after Unlock reads router.Options (found by the AST pass) *)
@@ -268,10 +277,11 @@ Definition template (o : op) : tmpl op :=
   (* icmp6spoof.go:56 spoofLoop, one iteration: hunt list and `closed` under the handler lock (exit),
      router list under the lock, then select on h.closeChan read with NO lock *)
   | I6SpoofLoop =>
-      simple [TAcq LIcmp6 MW; TRd FI6HuntList; TRd FI6Closed; TRd FI6Router; TRd FI6Routers; TRel LIcmp6;
-              TExitIfFlag FI6Closed; TRd FI6CloseChan; TAgain]
+      simple [TAcq LIcmp6 MW; TRd FI6CloseChan; TRd FI6HuntList; TRd FI6Closed; TRd FI6Router; TRd FI6Routers; TRel LIcmp6;
+              TExitIfFlag FI6Closed; TAgain]
   (* icmp6.go:67 Close: closes whatever channel h.closeChan currently holds *)
-  | I6Close => simple (closeWith FI6Closed [TRd FI6CloseChan] CI6Close)
+  | I6Close =>
+      simple [TAcq LIcmp6 MW; TRd FI6Closed; TOnce FI6Closed; TWr FI6Closed; TRd FI6CloseChan; TCloseCh CI6Close; TRel LIcmp6]
 
   (* ---- handlers/dhcp4_spoofer ---- *)
   (* dhcp4.go:247 ProcessPacket: client branch reads `mode` with no lock; server branch holds the handler
@@ -291,7 +301,7 @@ Definition template (o : op) : tmpl op :=
   (* client.go:58,84 sender goroutines: copies of their arguments, Conn.WriteTo only *)
   | DhcpSend => simple []
   (* dhcp4.go:165 *)
-  | DhcpClose => simple (closeWith FDhcpClosed [] CDhcpClose)
+  | DhcpClose => simple [TAcq LDhcp MW; TRd FDhcpClosed; TOnce FDhcpClosed; TWr FDhcpClosed; TCloseCh CDhcpClose; TRel LDhcp]
 
   (* ---- handlers/dns_naming ---- *)
   (* dns.go:104 ProcessDNS *)
@@ -309,7 +319,7 @@ Definition template (o : op) : tmpl op :=
 (* operations executed by the single packet-loop goroutine: never concurrent with each other *)
 Definition pktloop (o : op) : bool :=
   match o with
-  | ParseFast | ParseSlow | Notify | NotifyDhcp | DHCPv4Update
+  | ParseFast | ParseSlow | Notify | NotifyDhcp | DHCPv4Update | ReadFrom
   | ArpProcess | I6ProcessRA | DhcpProcess | DnsProcessDNS | DnsProcessMDNS => true
   | _ => false
   end.
